@@ -607,6 +607,14 @@ fn main() {
         mul::<16, 1>(&mut cx, 20 * s);
         mul::<1, 16>(&mut cx, 20 * s);
         mul::<16, 8>(&mut cx, 15 * s);
+        // the Karatsuba dispatch widths (16, 32, 64 limbs) as the LEFT operand with a wider / narrower right operand
+        mul::<16, 17>(&mut cx, 12 * s);
+        mul::<16, 32>(&mut cx, 10 * s);
+        mul::<8, 16>(&mut cx, 12 * s);
+        mul::<32, 16>(&mut cx, 6 * s);
+        mul::<32, 33>(&mut cx, 6 * s);
+        mul::<32, 32>(&mut cx, 6 * s);
+        mul::<64, 65>(&mut cx, 2 * s);
     }
     if cx.want("mulchecked") {
         mul_checked::<1>(&mut cx, 80 * s);
